@@ -39,24 +39,35 @@ func (p *c11) Rule() string {
 	return fmt.Sprintf("a case = %d expression texts + %d template texts derived from antlr/Excellent3.g4 (all operators with mixed precedence/associativity, unary-minus chains, redundant/missing parentheses, dot/index lookups with names, integers and quoted keys, calls of every deterministic registered function, lambdas, every spelling of text/number/boolean/null literals, random case and white space; templates add body text, '@@' and @identifiers), each evaluated in %d random (environment, context) pairs. For every text the real parser accepts: print, re-parse, print again, evaluate original and printed tree; for every template: refactor.Template with an identity transformation (keeping and re-printing) and with ContextRefRename(a -> b.c). An expression is non-trivial when it parsed and its tree has >= 2 operators or a lookup/call; a case is non-trivial when it holds such an expression; distinct = distinct case texts.", c11ExprsPerCase, c11TplsPerCase, c11Contexts)
 }
 func (p *c11) Directed() []string {
-	return []string{"associativity", "literals", "lookups-lambdas", "refactor-tests", "known:integer-dot-chain", "known:number-trailing-zeros", "known:trailing-backslash", "known:cherokee-identifier", "known:rename-lambda-capture", "known:rename-casefold"}
+	return []string{"associativity", "literals", "lookups-lambdas", "refactor-tests", "doc-examples", "known:integer-dot-chain", "known:number-trailing-zeros", "known:trailing-backslash", "known:cherokee-identifier", "known:rename-lambda-capture", "known:rename-casefold"}
 }
 func (p *c11) NumGenerated(tier string) int {
 	if tier == "thorough" {
-		return 48000
+		return 40000
 	}
-	return 960
+	return 1600
 }
 func (p *c11) BatchSize(tier string) int {
 	if tier == "thorough" {
 		return 150
 	}
-	return 15
+	return 25
 }
 func (p *c11) CaseTimeoutS() int { return 30 }
 func (p *c11) Floors(tier string) []string {
 	return []string{"exprs.parsed", "exprs.nontrivial", "clause.print_parses", "clause.fixed_point", "clause.value_alike", "value.both_value", "value.both_error",
 		"clause.identity_unchanged", "clause.identity_reprinted", "clause.rename_value", "clause.rename_refs", "rename.references_renamed"}
+}
+
+func (p *c11) ExtraEvidence(tier string, counters map[string]int64) map[string]any {
+	return map[string]any{
+		"expression_evaluation_pairs": counters["clause.value_alike"],
+		"template_evaluation_pairs":   counters["clause.identity_unchanged"] + counters["clause.identity_reprinted"] + counters["clause.rename_value"],
+		"contexts_per_expression":     c11Contexts,
+		"functions_generated_from":    len(deterministicFunctions()),
+		"functions_excluded":          []string{"rand", "rand_between", "now", "today", "has_error (returns the error message, which quotes the expression text)"},
+		"clock":                       "dates.Now fixed for the whole run (2-digit years and time-only parsing read it)",
+	}
 }
 
 func fixClock() {
@@ -81,7 +92,7 @@ type failure struct {
 	kind   string // print-panic | reparse-panic | unparseable | not-fixed-point | value | refs | refactor-panic
 	detail string // for refs: what differs
 	what   string
-	wit  map[string]any
+	wit    map[string]any
 	// for template failures: did the scanner split original and rewritten template into a different
 	// number of tokens?
 	tokensDiffer bool
@@ -111,6 +122,9 @@ func (p *c11) Run(c fw.Case) fw.Result {
 		for i := 0; i < c11TplsPerCase; i++ {
 			tpls = append(tpls, genTemplate(r, r.Chance(0.01)))
 		}
+	}
+	if c.Directed == "doc-examples" {
+		res.Count("doc_examples.loaded", int64(len(tpls)))
 	}
 	for _, e := range exprs {
 		k.checkExpr(e)
@@ -150,9 +164,25 @@ func (k *c11run) checkExpr(text string) {
 		if isOperator(n) {
 			ops++
 		}
-		switch n.(type) {
-		case *excellent.DotLookup, *excellent.ArrayLookup, *excellent.FunctionCall:
+		switch t := n.(type) {
+		case *excellent.DotLookup, *excellent.ArrayLookup:
 			lookups++
+		case *excellent.FunctionCall:
+			lookups++
+			if ref, ok := t.Func.(*excellent.ContextReference); ok {
+				k.res.Seen("functions_called", strings.ToLower(ref.Name))
+			} else {
+				k.res.Seen("computed_callees", kind(t.Func))
+			}
+		}
+		if isOperator(n) {
+			// operator directly under operator (no parentheses in between): the precedence /
+			// associativity interactions that printing has to preserve
+			for i, c := range children(n) {
+				if isOperator(c) {
+					k.res.Seen("operator_nesting", fmt.Sprintf("%s[%d]>%s", kind(n), i, kind(c)))
+				}
+			}
 		}
 	})
 	k.res.Seen("root_kinds", kind(root))
@@ -346,6 +376,14 @@ func applyRepair(text string, rp repair) (string, bool) {
 	}
 	if !rp.apply(root) {
 		return "", false
+	}
+	// the mutated tree has to be printed to be used; keep the two known *printing* defects out of
+	// the printed text (they are expression-level failures, reported before any caller gets here,
+	// and irrelevant to the template scanner)
+	for _, other := range []repair{repairDotChain, repairLowercase} {
+		if other.name != rp.name {
+			other.apply(root)
+		}
 	}
 	s, pn := safeString(root)
 	if pn != nil {
@@ -981,6 +1019,14 @@ func c11Directed(name string) (exprs, tpls []string) {
 			`@(AND("x"="y", "x"!="y"))`, `@(AND(1>2, 3<4, 5>=6, 7<=8))`, `@(FOO_Func(x, y))`, `@(1 / ) @(1+2)`, `test@example.com`, `test@@example.com`,
 			`@foo`, ` @foo @foo `, `@(foo.uuid + 1)`, `@(Upper(Foo))`, `@webhook`, `@( webhook[0] )`, `@( 1 +  2)`,
 			`@@foo @@(1) @foo`, `@foo.`, `@foo.bar@foo`, `@(foo`, `@("abc)`, `@(foo))`, `@ @. @@ @`, `a@b.com @(foo)@foo`, `@(foo & FOO & Foo) @FOO @Foo.x`, `@(upper(foo) & foo.a & foo["a"] & foo[0])`}
+	case "doc-examples":
+		// every example of goflow's own doc comments: as a template, and its expressions on their own
+		tpls = docExamples()
+		for _, t := range tpls {
+			if strings.HasPrefix(t, "@(") && strings.HasSuffix(t, ")") {
+				exprs = append(exprs, t[2:len(t)-1])
+			}
+		}
 	case "known:integer-dot-chain":
 		exprs = []string{`arr . 3 . 1`, `arr.3 .1`, `webhook.b.c.2 . 0`, `-arr.3 . 1 ^ 2`, `upper(arr .3 .1)`}
 		tpls = []string{`@(arr.3 .1) and @arr.3`}
